@@ -2199,6 +2199,8 @@ class Tensor(object):
         reached = tn.relative_error(copy, self)
         if reached < eps:
             self.round_tucker((1 + eps) / (1 + reached) - 1, **kwargs)
+        elif kwargs.get("rmax", None) is not None:  # No budget left, but rmax still applies
+            self.round_tucker(0, **kwargs)
 
     """
     Convenience "methods"
